@@ -53,8 +53,19 @@ def validate_events(rep, pid, gen_args, what_key, heap="6g", max_violations=12):
     if n == 0:
         raise ToolError("harness produced no events")
     events = read_trace(trace)
-    bad, st, tr, matched = validate_trace("PrayerDayTrace", "PrayerDayTrace.cfg", trace, n, heap=heap,
+    # findings listed in known_findings.json are modelled as named actions of the trace spec and enabled from here
+    env = {}
+    for k in rep.known.get("known", []):
+        if k.get("property") == pid and k.get("id"):
+            env["KNOWN_" + k["id"]] = "1"
+    bad, st, tr, matched = validate_trace("PrayerDayTrace", "PrayerDayTrace.cfg", trace, n, heap=heap, env=env,
                                           max_violations=max_violations)
+    for fid, idxs in getattr(validate_trace, "known_hits", {}).items():
+        k = [x for x in rep.known.get("known", []) if x.get("id") == fid]
+        if k:
+            rep.known_hits += len(idxs)
+            rep.extra.setdefault("known_finding_events", {})[fid] = len(idxs)
+            log(f"[known] finding {fid} matched {len(idxs)} event(s) in this run")
     rep.states += st
     rep.transitions += tr
     rep.traces += matched
